@@ -422,6 +422,7 @@ impl<'a> GeneratorState<'a> {
                         .syntax_error("Sizeof only works on variables and simple types", pos))
                 }
             }
+            Expr::Identifier(var, _) if var == "X" || var == "Y" => Ok(ExprType::Immediate(1)),
             Expr::Identifier(var, _) => {
                 let v = self.compiler_state.get_variable(var);
                 match v.var_type {
